@@ -164,8 +164,23 @@ def run_mux_case(seed, n_requests=24, connections=3):
     th = threading.Thread(target=lambda: asyncio.run(server.serve()), daemon=True)
     th.start()
     problems = []
+    # a second client of the same server, busy at the same time: each client must get the responses to its own requests
+    other = {'out': None}
+
+    def second_client():
+        try:
+            with SocketClient(path=path, num_connections=2, connection_timeout=20) as c2:
+                xs = [payloads[i] for i in range(n_requests) if i % 7 != 6]
+                got = list(c2.stream('/echo', xs, response_timeout=25))
+                got += [c2.request('/echo', x, response_timeout=25) for x in xs[:5]]
+                want = [(x[0], len(x[1]), x[1][:8], sum(x[1]) % 65521) for x in xs]
+                other['out'] = 'ok' if got == want + want[:5] else f'second client: {len(got)} responses, not the results of its own requests'
+        except Exception as e:  # noqa
+            other['out'] = 'second client failed: ' + repr(e)[:160]
+    th2 = threading.Thread(target=second_client, daemon=True)
     try:
         with SocketClient(path=path, num_connections=connections, connection_timeout=20) as client:
+            th2.start()
             results = {}
 
             def one(i):
@@ -205,6 +220,9 @@ def run_mux_case(seed, n_requests=24, connections=3):
             wants = [(x[0], len(x[1]), x[1][:8], sum(x[1]) % 65521) for x in xs]
             if ys != wants:
                 problems.append('stream() outputs are not the in-order results of its inputs')
+            th2.join(60)
+            if other['out'] != 'ok':
+                problems.append(str(other['out'] or 'second client did not finish within 60 s'))
             client.request('/shutdown', response_timeout=0)
     except Exception as e:  # noqa
         problems.append('loopback run failed: ' + repr(e)[:200])
